@@ -180,7 +180,8 @@ def gen_scenarios(rng, tier):
              {"kind": "importcache", "mode": "nil", "n": 4, "rounds": 2 if not thorough else 4}]
     sc.append({"name": "importcache-ok", "proto": "PImportCache", "hits": False, "env": {}, "cases": cases})
     sc.append({"name": "importcache-err", "proto": "PImportCache", "hits": True, "env": {},
-               "cases": [{"kind": "importcache", "mode": "err", "n": 4, "rounds": 3, "timeout_ms": 5000}]})
+               "cases": [{"kind": "importcache", "mode": "err", "n": 4, "rounds": 3, "timeout_ms": 5000},
+                         {"kind": "importcache", "mode": "chain", "n": 3, "rounds": 2, "timeout_ms": 6000}]})
 
     # S10 the stdin cache behind //os.stdin: one contended first use per process (no public reset), the process's
     # descriptor 0 re-pointed at a pipe fed in small chunks; serial result = the whole stream for everybody
